@@ -3,6 +3,8 @@
 package role
 
 import (
+	"context"
+
 	"github.com/synnaxlabs/synnax/pkg/distribution/ontology"
 	"github.com/synnaxlabs/x/gorp"
 )
@@ -10,4 +12,10 @@ import (
 // VerifNewService builds a role service over db and otg without migrations, signals, search or a roles group.
 func VerifNewService(db *gorp.DB, otg *ontology.Ontology) *Service {
 	return &Service{cfg: ServiceConfig{DB: db, Ontology: otg}, table: gorp.VerifOpenTable[Key, Role](db)}
+}
+
+// VerifStoreRole writes a role row directly (Create also files the role under the roles group, which this
+// harness environment does not have).
+func VerifStoreRole(ctx context.Context, s *Service, r Role) error {
+	return s.table.NewCreate().Entry(&r).Exec(ctx, s.cfg.DB)
 }
